@@ -46,8 +46,8 @@ def gen_case(rng, tier, idx):
     alter = rng.random() < 0.3
     for i in range(n_spot):
         tick = rng.choice([1.0, 0.5, 0.25]) if alter else rng.choice([1.0, 0.5, 0.1, 10.0])
-        cfg["S%d" % i] = {"class": "Market", "tickSize": tick, "marketPrice": rng.choice([100, 400]) * tick,
-                          "outstandingShares": 1000}
+        cfg["S%d" % i] = {"class": "Market" if rng.random() < 0.7 else "DepthMarket", "tickSize": tick,
+                          "marketPrice": rng.choice([100, 400]) * tick, "outstandingShares": 1000}
         cfg["simulation"]["markets"].append("S%d" % i)
     if n_spot >= 2 and rng.random() < 0.6:
         cfg["IDX"] = {"class": "IndexMarket", "tickSize": 0.5, "markets": ["S0", "S1"], "outstandingShares": 1000,
